@@ -230,6 +230,15 @@ class Element(UnicodeMixin):
         @rtype: L{Element}
 
         """
+        prefix, localname = splitPrefix(name)
+        if prefix is None:
+            # An unprefixed name designates the attribute in no namespace,
+            # never a prefixed one with the same local name.
+            for index, a in enumerate(self.attributes):
+                if a.prefix is None and a.name == localname:
+                    del self.attributes[index]
+                    break
+            return self
         try:
             attr = self.getAttribute(name)
             self.attributes.remove(attr)
